@@ -135,7 +135,11 @@ ElemUse::getNextChildElemToExecute(
 {
     const ElemTemplateElement* nextElement = 0;
     
-    if (m_attributeSetsNamesCount > 0)
+    // xsl:copy uses its attribute sets only when it copies an element
+    // node (see getFirstChildElemToExecute())...
+    if (m_attributeSetsNamesCount > 0 &&
+        (getXSLToken() != StylesheetConstructionContext::ELEMNAME_COPY ||
+         executionContext.getCurrentNode()->getNodeType() == XalanNode::ELEMENT_NODE))
     {
         nextElement = getNextAttributeSet(executionContext);
     }
